@@ -110,6 +110,16 @@ func (rc *resources) checkMemory(rsvp int64, prio uint8) error {
 	limit := rc.limit.GetMemoryLimit()
 	if limit == math.MaxInt64 {
 		// Special case where we've set max limits.
+		// The sum must still be representable, otherwise rc.memory wraps negative.
+		if _, addOk := addInt64WithOverflow(rc.memory, rsvp); !addOk {
+			return &ErrMemoryLimitExceeded{
+				current:   rc.memory,
+				attempted: rsvp,
+				limit:     limit,
+				priority:  prio,
+				err:       network.ErrResourceLimitExceeded,
+			}
+		}
 		return nil
 	}
 
